@@ -66,7 +66,7 @@ ENTRIES = {
              "1/precision per experiment, positive when precision is; predict_*_all returns one row per sample in holder order and "
              "predict_*_avg their exact mean. Tied to the code by running the extracted model and the real predict_* functions on screens built "
              "through batchie.data.Screen (arity 1/2, control by name or dose in either/both columns, subsets, plates, reorderings) within 1e-9, "
-             "plus the property predicates and before/after deep-copy purity checks on the implementation.",
+             "plus the property predicates and before/after deep-copy purity checks on the implementation. In addition copy_array_with_control_treatments_set_to_zero, predict, predict_single_drug, the six predict_* methods of both sample types, ScreenBase.size / treatment_arity and the five predict_*_all / predict_*_avg helpers are re-translated from /repo's source on every run and C09_model_is_source_* prove the model equal to the translations (numpy indexing / elementwise operators / scipy calls are declared primitives typed by array shape).",
         note="Trusted: Coq kernel, extraction, OCaml driver with libm oracles, Python harness. Floats abstracted to reals (tolerance 1e-9). "
              "Purity is checked at run time only. The interaction type's viability is exp(mean + ln(clipped single effects)), not the logistic; "
              "modelled as coded, stated as C09_inter_viability_not_logistic_refuted (the property text's 'logistic' clause is the sparse type's). "
@@ -79,7 +79,7 @@ ENTRIES = {
              "both mappings in stored order); ids/mappings never change; save after load after save = save; any number of cycles; same for "
              "ExperimentSpace; exact characterisation of load(save s) as the constructor call load_h5 makes. Tied to the code by differential "
              "correspondence and a field-by-field bit-level predicate through real h5py files (1-3 cycles, non-ASCII/empty names, NaN payloads, "
-             "raw dose bits, dtypes), with the two formerly failing 0-row witnesses as corpus cases.",
+             "raw dose bits, dtypes), with the two formerly failing 0-row witnesses as corpus cases. In addition Screen.save_h5 / load_h5, ExperimentSpace.from_screen / save_h5 / load_h5 and the string codec helpers are re-translated from /repo's source into Gallina on every run and C02_model_is_source_* prove the model equal to the translations (h5py calls are declared primitives).",
         note="Trusted: Coq kernel, extraction, driver, harness. h5py is modelled as the identity on arrays and the string codec as the identity "
              "on arrays of any shape (exercised by every case). Doses are order keys in the model (raw bits checked on the implementation). "
              "The 0-row defect found here was repaired in /repo (fix: 81a412f); model and theorems describe the repaired code."),
@@ -104,7 +104,7 @@ ENTRIES = {
              "all enumerated triples have zero distance; checks pass on well-formed input. Tied to the code by running the extracted model "
              "against the three dbal_fast_* entry points and GaussianDBALScorer.score (real Screen plates, real predict_*_all, "
              "ChunkedDistanceMatrix) on the same recorded rng.choice draws; pred compares the implementation with an independent Python loop and "
-             "checks the invariances directly.",
+             "checks the invariances directly. In addition GaussianDBALScorer.score, the heteroscedastic / homoscedastic entry points, the padding function and the shape-check and index-to-triple statement runs of the vectorized kernel are re-translated from /repo's source on every run and C05_model_is_source_* prove the model equal to the translations; the kernel's tensor expressions stay with the correspondence.",
         note="Trusted: Coq kernel, extraction, OCaml driver with libm oracles, harness; numpy broadcasting/fancy indexing rendered pointwise; "
              "scipy 1.17.1 logsumexp algorithm modelled; unranking is Model/Unrank.v (C15); tolerance 1e-9*max(1,|score|), -inf exact; "
              "distance_factor>0, variances>0 in generated cases; four in-memory mutants re-run as self-tests on every check."),
